@@ -118,6 +118,29 @@ def cases(ctx):
                        domain=enc[0] in (2, 3) and len(enc) == 33 or len(enc) == 32)
     for ln in (0, 1, 31, 34, 64, 66):
         yield Case(f'pub_parse {hx(bytes(ln))}', 'm', nontrivial=True, tag='parse-len', domain=False)
+    # the translated constructor / renderings (tier T) run against the implementation: clean hex of every kind of encoding, and
+    # the string glue around it (case, 0x prefix, surrounding / embedded whitespace, signs, underscores, odd lengths)
+    for i in range(ctx.n(40, 1500)):
+        d = rng.choice(secrets + lz + pre)
+        raw = PrivateKey(secret_exponent=d).get_public_key().to_bytes()
+        x, y = raw[:32], raw[32:]
+        yield Case(f'pk_render {hx(raw)}', 'g', nontrivial=True, tag='gen-render')
+        encs = [bytes([2 + y[-1] % 2]) + x, bytes([3 - y[-1] % 2]) + x, x, b'\x04' + raw, b'\x05' + x, b'\x04' + x + G.rbytes(rng, 32),
+                bytes([rng.choice([2, 3])]) + G.rbytes(rng, 32), G.rbytes(rng, 32), G.rbytes(rng, rng.choice([0, 1, 16, 31, 34, 63, 64, 66]))]
+        for enc in encs:
+            h = enc.hex()
+            yield Case(f'pk_parse {sh(h)}', 'g', nontrivial=True, tag='gen-parse-clean')
+            if i % 4: continue
+            ws = rng.choice([' ', '\t', '\n', '\r', '\x0b', '\x0c', '\x1c', '\x1f', '  '])
+            cut = 2 * rng.randrange(0, len(enc) + 1)
+            odd = rng.randrange(0, len(h) + 1)
+            variants = [h.upper(), h[:2] + h[2:].upper(), '0x' + h, '0X' + h, '0x' + h.upper(), ws + h, h + ws, ws + '0x' + h + ws, '0x' + ws + h,
+                        h[:cut] + ws + h[cut:], h[:odd] + ws + h[odd:], h[:2] + ws + h[2:], h[:2] + '_' + h[2:], h[:4] + '_' + h[4:],
+                        h[:2] + '+' + h[2:], h[:2] + '-' + h[2:], '+' + h, '-' + h, h[:2] + '0x' + h[2:], '0x0x' + h, h + '_', h[:-1],
+                        h + '0', 'x' + h, h.replace('a', 'g', 1), '0x', '', ws, h[:2], '0x' + h[:2] + ws + '0x' + h[2:]]
+            for v in variants:
+                ctx.count('gen-parse-glue')
+                yield Case(f'pk_parse {sh(v)}', 'g', nontrivial=True, tag='gen-parse-glue', domain=False)
 
 
 def explicit_spec(ans, args):
@@ -164,6 +187,14 @@ def impl(op, a, ctx):
     if op == 'pub_parse':
         p = PublicKey(F.bytes().hex()).to_bytes()
         return f'ok {p[:32].hex()} {p[32:].hex()}'
+    if op == 'pk_parse':
+        p = PublicKey(F.bytes().decode()).to_bytes()
+        return f'ok {p[:32].hex()} {p[32:].hex()}'
+    if op == 'pk_render':
+        raw = F.bytes()
+        pub = PublicKey('04' + raw.hex())
+        return (f'ok {pub.to_hex(True)} {pub.to_hex(False)} {pub.to_x_only_hex()} {1 if pub.is_y_even() else 0} '
+                f'{pub._to_hash160(True).hex()} {pub._to_hash160(False).hex()}')
     if op == 'pub_roundtrip':
         pub = PrivateKey(b=F.bytes()).get_public_key()
         raw = pub.to_bytes()
